@@ -360,6 +360,7 @@ func init() {
 		Gen:       c18Gen,
 		Run:       c18Run,
 		Rule:      "single-threaded op sequences on a real inspector/participant (valid, wrong-message, non-deserializable, wrong-length and duplicate shares, in- and out-of-range indices, fills around t / t+1 / t+2, final HasShare/EnoughShares/ThresholdSignature probes) and concurrent histories (2-8 goroutines, <= 9 stamped operations + sequential probes); non-trivial if at least one share was accepted or rejected; distinct by (n, t, op list / thread assignment)",
+		RaceKinds: []string{"concurrent"},
 		Shard:     25,
 	})
 }
@@ -600,6 +601,14 @@ func c18Run(c Case) (Result, error) {
 		}
 		term := fmt.Sprintf("mkCase %d %d %s [%s] [] %s", in.N, in.T, my, strings.Join(items, "; "), cqbool(crashed))
 		return Result{Coq: term, Key: string(c.Input), Nontrivial: nontrivial || crashed, Obs: obs}, nil
+	}
+	// under the race detector the history is run in-process (one detector runtime, no process start-up
+	// per case); the child process is only for crash isolation
+	if os.Getenv("VH_RACE") == "1" {
+		if _, err := c18RunConcurrent(in); err != nil {
+			return Result{}, err
+		}
+		return Result{Coq: fmt.Sprintf("mkCase %d %d %s [] [] false", in.N, in.T, my), Key: string(c.Input), Nontrivial: true}, nil
 	}
 	// concurrent: child process
 	cmd := exec.Command(os.Args[0])
